@@ -375,14 +375,14 @@ Lemma task_ok_frame g g' o t t' k' :
 Proof.
   intros Hu Ln Hcm Hfr Hlk D [H1 H2]. split.
   - rewrite Hu. exact H1.
-  - destruct (t_pc k'); auto.
-    + destruct H2 as [A [B [C E]]]. assert (N0 : o0 <> o) by (intros ->; destruct Hlk; congruence).
-      destruct (Hfr o0 N0) as [F1 [F2 F3]]. rewrite F1, F2. auto.
-    + destruct H2 as [A B]. split; [lia|]. intros ch' H. destruct (Hcm _ _ H); [eauto|lia].
-    + destruct H2 as [A [B [C E]]]. assert (N0 : o0 <> o) by (intros ->; destruct Hlk; congruence).
-      destruct (Hfr o0 N0) as [F1 [F2 F3]]. rewrite F1, F2. auto.
-    + destruct H2 as [A C]. assert (N0 : o0 <> o) by (intros ->; destruct Hlk; congruence).
-      destruct (Hfr o0 N0) as [F1 [F2 F3]]. rewrite F2. auto.
+  - assert (Hwait : forall ch0 o0, (o0 < next_oid g /\ forall ch', cmap g ch' = Some o0 -> ch' = ch0) ->
+                                  o0 < next_oid g' /\ forall ch', cmap g' ch' = Some o0 -> ch' = ch0).
+    { intros ch0 o0 [A B]. split; [lia|]. intros ch' H. destruct (Hcm _ _ H); [eauto|lia]. }
+    assert (Hheld : forall o0, wl g o0 = Some t' -> o0 <> o) by (intros o0 W ->; destruct Hlk; congruence).
+    destruct (t_pc k'); auto.
+    + destruct H2 as [A [B [C E]]]. destruct (Hfr _ (Hheld _ C)) as [F1 [F2 F3]]. rewrite F1, F2. auto.
+    + destruct H2 as [A [B [C E]]]. destruct (Hfr _ (Hheld _ C)) as [F1 [F2 F3]]. rewrite F1, F2. auto.
+    + destruct H2 as [A C]. destruct (Hfr _ (Hheld _ C)) as [F1 [F2 F3]]. rewrite F2. auto.
 Qed.
 
 Lemma TInv_frame s g' l' t k nk o :
@@ -569,15 +569,16 @@ Section Cases.
   (* nothing changes but the task's pc: it (still) waits for the lock *)
   Lemma case_wait ch o ob id os hint :
     holds (t_pc k) = None ->
+    (o < next_oid (cg s) /\ forall ch', cmap (cg s) ch' = Some o -> ch' = ch) ->
     CInv (after_seg s t k (cg s, PJoinWait ch o ob id, os) hint).
   Proof.
-    intros Hh. cbn [after_seg settle].
+    intros Hh Hw. cbn [after_seg settle].
     eapply CInv_assemble with (o := next_oid (cg s)) (nk := Some _); eauto using up_set, CInv_GInv.
     - apply N.le_refl.
     - left. apply fresh_free.
     - rewrite Hh. discriminate.
     - split; [|split].
-      + split; [now apply ok_conn_with|exact I].
+      + split; [now apply ok_conn_with|exact Hw].
       + cbn [with_pc t_pc]. discriminate.
       + left. apply fresh_free.
   Qed.
@@ -784,11 +785,14 @@ Proof.
     destruct (cmap (cg s) ch) as [o|] eqn:Hm.
     + destruct (lock_free (cg s) o) eqn:Hf.
       * eapply join_locked_false; eauto. now rewrite Hp.
-      * eapply case_wait; eauto. now rewrite Hp.
+      * eapply case_wait; eauto; [now rewrite Hp|]. split.
+        -- eapply g_mapped_lt; [apply CInv_GInv; eauto|eauto].
+        -- intros ch' H. eapply (i_inj s HI); eauto.
     + eapply join_locked_true; eauto. now rewrite Hp.
   - cbn [seg]. destruct (lock_free (cg s) o) eqn:Hf.
     + eapply join_locked_false; eauto. now rewrite Hp.
-    + eapply case_wait; eauto. now rewrite Hp.
+    + eapply case_wait; eauto; [now rewrite Hp|].
+      destruct (i_tasks s HI t k Hin) as [_ Hok]. rewrite Hp in Hok. exact Hok.
   - cbn [seg]. unfold join_finish. destruct F as [_ Hi]. rewrite Hi. destruct ok.
     + eapply case_finish_ok; eauto.
     + eapply case_finish_fail; eauto.
